@@ -15,6 +15,7 @@ import (
 	"time"
 
 	mqtt "github.com/eclipse/paho.mqtt.golang"
+	clientconstants "github.com/orda-io/orda/client/pkg/constants"
 	"github.com/orda-io/orda/client/pkg/context"
 	"github.com/orda-io/orda/client/pkg/iface"
 	"github.com/orda-io/orda/client/pkg/model"
@@ -171,4 +172,57 @@ func VF_Real_Registration() {
 	d2, _ := w.repo.GetDatatype(rctx(), rD)
 	vf.Assert(x2 == nil && d2 == nil, "C17 resetting a collection removes its clients and datatypes")
 	vf.Assert(y2 != nil && y2.CollectionNum == cb.Num, "C17 ... and nothing of another collection")
+}
+
+// VF_Real_LongPull (C05, C06): the far-behind client of VF_C05_LongPull at the
+// real-repository tier (raw requests): x pushes constants.OperationBufferSize+3
+// operations in three batches; y, subscribed at the start, then sends one request
+// that pushes two operations of its own and pulls everything it has missed.  It
+// gets every operation of x, in log order; checkpoint and recorded end of log
+// equal the number of stored operations; a further push of x is accepted.
+func VF_Real_LongPull() {
+	w := vfNewRealWorld()
+	_, e1 := w.svc.CreateCollection(gocontext.TODO(), &model.CollectionMessage{Collection: "colA"})
+	vf.Assert(e1 == nil && w.register("colA", rX) == nil && w.register("colA", rY) == nil, "setup")
+	opt := model.PushPullBitNormal
+	opt.SetSubscribeBit().SetCreateBit()
+	r0, e0 := w.pushPull("colA", rX, &model.PushPullPack{Key: "k", DUID: rD, Option: uint32(opt), Type: model.TypeOfDatatype_COUNTER,
+		CheckPoint: &model.CheckPoint{}, Operations: []*model.Operation{rOp(rX, 1, 1, true)}})
+	vf.Assert(e0 == nil && r0 != nil && !hasErrBit(r0), "C13 the datatype is created")
+	sub := model.PushPullBitNormal
+	sub.SetSubscribeBit()
+	r1, e1b := w.pushPull("colA", rY, &model.PushPullPack{Key: "k", DUID: rE, Option: uint32(sub), Type: model.TypeOfDatatype_COUNTER, CheckPoint: &model.CheckPoint{}})
+	vf.Assert(e1b == nil && r1 != nil && !hasErrBit(r1) && r1.DUID == rD && len(r1.Operations) == 1, "C13 y subscribes and gets the log so far")
+	vf.Quiesce()
+	n := clientconstants.OperationBufferSize + 3
+	seq := uint64(1)
+	for batch := 0; batch < 3; batch++ {
+		var ops []*model.Operation
+		first := seq
+		for len(ops) < (n+2)/3 && int(seq) < n+1 {
+			seq++
+			ops = append(ops, rOp(rX, seq, seq, false))
+		}
+		rb, eb := w.pushPull("colA", rX, &model.PushPullPack{Key: "k", DUID: rD, Option: uint32(model.PushPullBitNormal), Type: model.TypeOfDatatype_COUNTER,
+			CheckPoint: &model.CheckPoint{Sseq: first, Cseq: first}, Operations: ops})
+		vf.Assert(eb == nil && rb != nil && !hasErrBit(rb) && rb.CheckPoint.Cseq == seq, "C06 a batch is accepted")
+		vf.Quiesce()
+	}
+	stored := int(seq) // x's operations 1..seq
+	ry, ey := w.pushPull("colA", rY, &model.PushPullPack{Key: "k", DUID: rD, Option: uint32(model.PushPullBitNormal), Type: model.TypeOfDatatype_COUNTER,
+		CheckPoint: &model.CheckPoint{Sseq: 1, Cseq: 0}, Operations: []*model.Operation{rOp(rY, 1, 5000, false), rOp(rY, 2, 5001, false)}})
+	vf.Quiesce()
+	vf.Reach("pulled")
+	vf.Assert(ey == nil && ry != nil && !hasErrBit(ry), "C16 the far-behind client is served")
+	vf.Assert(len(ry.Operations) == stored-1, "C05 one pull returns every operation the client has missed")
+	for i, o := range ry.Operations {
+		vf.Assert(o.ID.CUID == rX && o.ID.Seq == uint64(i+2), "C05/C06 pulled operations come in log order")
+	}
+	vf.Assert(ry.CheckPoint.Sseq == uint64(stored+2) && ry.CheckPoint.Cseq == 2, "C06 the checkpoint is (end of log, own stored operations)")
+	d, _ := w.repo.GetDatatype(rctx(), rD)
+	all, sseqs, _ := w.repo.GetOperations(rctx(), rD, 1, constants.InfinitySseq)
+	vf.Assert(d != nil && int(d.Sseq.End) == stored+2 && len(all) == stored+2 && len(sseqs) == stored+2, "C06 the recorded end of the log equals the number of stored operations")
+	rz, ez := w.pushPull("colA", rX, &model.PushPullPack{Key: "k", DUID: rD, Option: uint32(model.PushPullBitNormal), Type: model.TypeOfDatatype_COUNTER,
+		CheckPoint: &model.CheckPoint{Sseq: seq, Cseq: seq}, Operations: []*model.Operation{rOp(rX, seq+1, 9000, false)}})
+	vf.Assert(ez == nil && rz != nil && !hasErrBit(rz) && len(rz.Operations) == 2, "C06 the next push is accepted and pulls y's two operations")
 }
